@@ -37,7 +37,7 @@ func TestDevSizes(t *testing.T) {
 	}
 	fmt.Println("callables", len(registry()), "V0", len(v0()), "F0", len(f0))
 	for _, th := range []bool{false, true} {
-		for _, n := range []string{"L0", "RAW", "sink-cyclic"} {
+		for _, n := range []string{"L0", "RAW", "NUM", "sink-cyclic"} {
 			sp, _ := buildSpace(n, th, auxData{})
 			fmt.Println(n, "thorough=", th, sp.Size)
 		}
@@ -161,4 +161,57 @@ func TestDevCounts(t *testing.T) {
 		t.Skip()
 	}
 	fmt.Println("readers", len(histReaders), "containers", len(histContainers()), "walkValues", len(walkValues), "walkContexts", len(walkContexts), "cyclics", len(cyclics), "evalGens", len(evalGens))
+}
+
+// TestDevBatchCost measures the CPU cost of every batch of a space in-process
+// (one executor, the space's own reuse), and prints the slowest batches and cases.
+func TestDevBatchCost(t *testing.T) {
+	name := os.Getenv("C03_BATCHCOST")
+	if name == "" {
+		t.Skip()
+	}
+	sp, err := buildSpace(name, os.Getenv("C03_THOROUGH") != "", auxData{})
+	if err != nil {
+		t.Fatal(err)
+	}
+	x := newExecutor()
+	type bc struct {
+		lo int64
+		s  float64
+	}
+	var l []bc
+	byFn := map[string]float64{}
+	for lo := int64(0); lo < sp.Size; lo += sp.Batch {
+		t0 := time.Now()
+		for i := lo; i < lo+sp.Batch && i < sp.Size; i++ {
+			k := sp.Case(i)
+			c0 := time.Now()
+			r := x.run(&k, sp.Reuse)
+			dt := time.Since(c0).Seconds()
+			byFn[k.Fn] += dt
+			if dt > 0.02 {
+				fmt.Printf("SLOW %.3fs %s %s\n", dt, k.Src, r.Outcome)
+			}
+			if r.Class != "" {
+				fmt.Printf("VIOLATION %s %s %s\n", r.Class, k.Src, r.Got)
+			}
+		}
+		l = append(l, bc{lo, time.Since(t0).Seconds()})
+	}
+	sort.Slice(l, func(i, j int) bool { return l[i].s > l[j].s })
+	for i := 0; i < 5 && i < len(l); i++ {
+		fmt.Printf("batch at %d: %.3fs\n", l[i].lo, l[i].s)
+	}
+	type kv struct {
+		k string
+		v float64
+	}
+	var f []kv
+	for k, v := range byFn {
+		f = append(f, kv{k, v})
+	}
+	sort.Slice(f, func(i, j int) bool { return f[i].v > f[j].v })
+	for i := 0; i < 12 && i < len(f); i++ {
+		fmt.Printf("  %-40s %.2fs\n", f[i].k, f[i].v)
+	}
 }
